@@ -645,6 +645,10 @@ def explore_c15(tier, seed):
                         ev["occ"], ev["dur"] = min(ev["occ"], 3), 1
                         tot_ = sum(ev["impact"].values())
                         ev["house"] = {f"{regs_[0]}|{cats_[0]}": tot_ * 0.5}
+                        if rng.random() < 0.6:
+                            # a full vector over every (region, category), zero where there is no damage, listed in reverse order
+                            full_ = [f"{r_}|{c_}" for r_ in regs_ for c_ in cats_]
+                            ev["house"] = {kk_: (tot_ * 0.5 if kk_ == f"{regs_[0]}|{cats_[0]}" else 0.0) for kk_ in reversed(full_)}
                         two = sorted(secs_[:2], reverse=True)
                         ev["reb_sectors"] = {two[0]: 0.7, two[1]: 0.3}
                         if len(secs_) >= 3 and rng.random() < 0.6:
@@ -662,6 +666,8 @@ def explore_c15(tier, seed):
                 sc["model"]["inf_sect"] = None
                 if sc["model"]["class"] == "psi":
                     sc["model"]["restoration_tau"] = dict(zip(secs_c, rng.sample([90, 60, 30, 10, 5, 3], len(secs_c))))
+                    k_f = rng.choice(secs_c)
+                    sc["model"]["restoration_tau"][k_f] = float(sc["model"]["restoration_tau"][k_f])      # written as 90.0
                 if sc["model"]["capital"]["kind"] in ("default", "dict"):
                     sc["model"]["capital"] = {"kind": "dict", "values": dict(zip(secs_c, rng.sample([4, 2.5, 10, 1, 6, 3], len(secs_c))))}
             if known.match_scenario("C15", sc):
@@ -1458,7 +1464,10 @@ def explore_c17(tier, seed):
                 if e.get("house"):
                     e["house"] = {kk: v * ratio for kk, v in e["house"].items()}
                 e["emf"] = new_f
-            if e["type"] == "recovery" and e.get("house") and rng.random() < 0.6:
+            if e["type"] == "recovery" and not e.get("house"):
+                _regs0, _s0, _cats0 = scen.labels(sc["table"])
+                e["house"] = {f"{_regs0[0]}|{_cats0[0]}": 0.1 * sum(e["impact"].values())}
+            if e["type"] == "recovery" and e.get("house"):
                 # a household damage too small to matter (below the library's threshold): the library may ignore it, not erase it
                 # from the caller's Series
                 _regs, _s2, _cats = scen.labels(sc["table"])
